@@ -60,6 +60,13 @@ Proof.
   pose proof (C02_c2n_src (nann I)) as E. unfold c2n_src in E.
   unfold criterium_src, keep_src, passes, cut. cbv zeta. rewrite ?E; first [reflexivity | (f_equal; ring)].
 Qed.
+(* the number compared with the cut is the plain sum over the annotator pairs (nothing else enters it, no pair is special), and a tuple that
+   passes is recorded unconditionally - so the candidates handed to the optimiser are exactly those the pruning theorems speak of *)
+Theorem C02_src_pruned_sum_is_pair_sum :
+  firstn 2 valid_alignments_shape =
+  [("pair_loop", expected_pair_loop);
+   ("record", "disorders[i_chosen] = disorder; alignments[i_chosen] = unitary_alignment; i_chosen += 1")]%string.
+Proof. reflexivity. Qed.
 Theorem C02_src_objective :
   map snd (firstn 2 (skipn 3 best_ilp_src)) =
   ["cp.Variable(shape=(n,), boolean=True)"; "import cylp; cp.Problem(cp.Minimize(disorders.T @ x), [A @ x == 1]).solve(solver=cp.CBC)"]%string /\
